@@ -481,3 +481,7 @@ brk("C01", "c01-display-before-animation", ISD, "      activity_cache[element] =
     "specified display=none prunes before the set steps are applied")
 brk("C13", "c13-prev-lwsp-space-only", ISD, 'prev_text[-1] in ("\\t", "\\r", "\\n", " ")', 'prev_text[-1] == " "', "FIN-lwsp", "a preserved tab / line feed before default white space no longer counts as white space")
 brk("C04", "c04-prev-lwsp-space-only", ISD, 'prev_text[-1] in ("\\t", "\\r", "\\n", " ")', 'prev_text[-1] == " "', "FIN-lwsp", "shared with C13")
+brk("C11", "c11-drop-blank-string-tokens", VTTR, "  def _handle_string(self, token: StringToken):\n", "  def _handle_string(self, token: StringToken):\n    if len(token.value.strip()) == 0:\n      return\n\n", "KEEP-text", "white space between two tags is dropped")
+brk("C12", "c12-last-frame-label-refused", IU, "    if frames >= frame_rate:\n", "    if frames >= frame_rate - 1:\n", "FIN-timeparse", "the last frame label of a second is refused")
+brk("C19", "c19-max-row-count-digit-strings", "ttconv/stl/config.py", "  if isinstance(value, int) and value > 0:\n    return value\n", "  if isinstance(value, str) and _MNR_PATTERN.match(value):\n    return int(value)\n\n  if isinstance(value, int) and value > 0:\n    return value\n", "FIN-decoder", "digit strings, also '0', accepted")
+brk("C16", "c16-falsy-config-default", "ttconv/config.py", "      field_value = config_dict.get(field.name, cls.get_field_default(field))\n", "      field_value = config_dict.get(field.name)\n      if not field_value and field_value is not False:\n        field_value = cls.get_field_default(field)\n", "LINT-o", "safe_area 0 becomes the default 10")
